@@ -46,7 +46,7 @@ struct NoJsonResolver;
 impl Resolver<identity_core::common::StringOrUrl, Vec<u8>> for NoResolver { async fn resolve(&self, input: &identity_core::common::StringOrUrl) -> Result<Vec<u8>, resolver::Error> { Err(resolver::Error::NotFound(input.to_string())) } }
 
 const DOC: &str = r#"{"id":"did:example:issuer","verificationMethod":[{"id":"did:example:issuer#k","controller":"did:example:issuer","type":"JsonWebKey","publicKeyJwk":{"kty":"OKP","crv":"Ed25519","x":"11qYAYKxCrfVS_7TyWQHOg7hcvPapiMlrwIaaPcHURo"}},{"id":"did:example:issuer#p","controller":"did:example:issuer","type":"JsonWebKey","publicKeyJwk":{"kty":"EC","crv":"P-256","x":"MKBCTNIcKUSDii11ySs3526iDZ8AiTo7Tu6KPAqv7D4","y":"4Etl6SRW2YiLUrN5vfvVHuhp7x8PxltmWWlbbM4IFyM"}}],"authentication":["did:example:issuer#k"],"service":[{"id":"did:example:issuer#rev","type":"RevocationBitmap2022","serviceEndpoint":"data:application/octet-stream;base64,eJyzMmAAAwADKABr"}]}"#;
-pub const ENTRIES: usize = 45;
+pub const ENTRIES: usize = 46;
 fn s(bytes: &[u8]) -> String { String::from_utf8_lossy(bytes).to_string() }
 fn sink<T: std::fmt::Debug>(x: T) { let _ = format!("{:?}", x); }
 
@@ -131,6 +131,10 @@ fn run(e: i64, bytes: &[u8], extra: &[i64]) -> Vec<i64> {
             if let Ok(d) = serde_json::from_value::<DIDJwk>(json!(t)) { got.push(d); } if let Ok(v) = serde_json::from_value::<Vec<DIDJwk>>(json!([t])) { got.extend(v); }
             if let Ok(m) = serde_json::from_value::<std::collections::BTreeMap<String, DIDJwk>>(json!({"k": t})) { got.extend(m.into_values()); } if let Ok(d) = serde_json::from_slice::<DIDJwk>(bytes) { got.push(d); }
             for d in got { let j = d.jwk(); sink((j.kty(), j.is_public(), d.to_string())); let _ = VerificationMethod::try_from(d.clone()).map(|m| m.id().to_string()); let _ = CoreDocument::expand_did_jwk(d.clone()).map(|x| x.methods(None).len()); let _ = serde_json::to_value(&d); } }
+    // 45: the JSON-proof-token key type and the conversions to and from Jwk (jwk_ext.rs)
+    45 => { if let Ok(ext) = serde_json::from_slice::<jsonprooftoken::jwk::key::Jwk>(bytes) { if let Ok(j) = Jwk::try_from(ext.clone()) { sink((j.kty(), j.is_public(), j.is_private(), j.thumbprint_sha256_b64())); let _ = j.to_public(); let _ = j.to_json();
+              let _ = <&Jwk as TryInto<jsonprooftoken::jwk::key::Jwk>>::try_into(&j); } let _ = serde_json::to_vec(&ext); }
+            if let Ok(j) = Jwk::from_json_slice(bytes) { let _ = <&Jwk as TryInto<jsonprooftoken::jwk::key::Jwk>>::try_into(&j).map(|e| Jwk::try_from(e).map(|b| b == j)); } }
     _ => { let _ = serde_json::from_slice::<Value>(bytes); }
   }
   vec![0]
@@ -268,6 +272,8 @@ pub fn gen(rng: &mut Rng, thorough: bool, sink: &mut Sink) {
               json!({"vct": "https://issuer.example/type", "schema_uri": "https://issuer.example/schema", "schema_uri#integrity": "sha256-9cLlJNXN2TlqRXkHJ1VtbMkeCXzeXbFLQaAkUFGl7Tk", "extends": "https://issuer.example/other"}), json!({"vct": "https://issuer.example/type"})]),
     (38, vec![json!({"path": ["address", "street"], "sd": "always"}), json!({"path": ["degrees", null, "n"], "sd": "never", "display": [{"lang": "en", "label": "l"}]}), json!({"path": ["degrees", 2], "sd": "allowed", "svg_id": "x"}), json!({"path": []}), json!({"path": [null]}), json!({"path": [-1]})]),
     (39, vec![json!({"issuer": "https://issuer.example/a", "jwks": {"keys": [jwk_ed.clone()]}}), json!({"issuer": "https://issuer.example/a", "jwks_uri": "https://issuer.example/jwks"}), json!({"issuer": "did:example:x", "jwks_uri": "https://issuer.example/jwks", "jwks": {"keys": []}})]),
+    (45, vec![json!({"kty": "EC", "crv": "BLS12381G2", "x": "AA", "y": "AA", "d": "AA", "kid": "k", "alg": "BBS-BLS12381-SHA256", "use": "sig", "key_ops": ["sign", "proofGeneration"], "x5u": "https://a.example/c", "x5c": ["AA"], "x5t": "AA"}),
+              json!({"kty": "OKP", "crv": "Ed25519", "x": "AA"}), json!({"kty": "OKP", "crv": "BLS12381G2", "x": "AA", "d": "AA"}), json!({"kty": "OKP", "crv": "BLS12381G2", "x": "AA", "y": "AA"}), json!({"kty": "EC", "crv": "P-256", "x": "AA", "y": "AA"}), json!({"kty": "RSA", "crv": "P-256", "x": "AA"}), jwk_ec.clone(), jwk_ed.clone()]),
     (41, vec![cred.clone()]), (31, vec![json!({"alg": "EdDSA", "kid": "k", "b64": false, "crit": ["b64"], "typ": "JWT", "nonce": "n", "custom": 1})]),
   ];
   for (e, seeds) in &json_seeds { for sd in seeds { let txt = serde_json::to_vec(sd).unwrap(); emit(*e, &txt, &[0], "seed", sink);
@@ -317,7 +323,7 @@ pub fn gen(rng: &mut Rng, thorough: bool, sink: &mut Sink) {
   let _ = ENTRIES;
 }
 /// roaring "standard" serialisations built by hand. A container is (key, declared cardinality, payload); arrays hold u16 values, bitmaps 1024 u64 words.
-fn roaring_payloads() -> Vec<Vec<u8>> {
+pub fn roaring_payloads() -> Vec<Vec<u8>> {
   #[derive(Clone)] enum P { Arr(Vec<u16>), Bits(Vec<(usize, u64)>), Runs(Vec<(u16, u16)>) }
   let ser = |cookie_runs: bool, conts: &[(u16, u32, P)], size_claim: Option<u32>, offsets: bool| -> Vec<u8> {
     let mut o = vec![]; let n = conts.len() as u32;
